@@ -148,20 +148,30 @@ theorem findIsometry_isIso (hr : IsSqrt r) (x : Fin (n + 1) → K) (rest ker : L
     IsIso (rowsMatrix (findIsometry r (minkJ n) (x :: rest) ker) hlen) :=
   findIsometry_isIso' hr x rest ker hx hker hnz hlen
 
+/-- the sheet normalisation of (repaired) `origin_to`: the first row has non-negative time coordinate,
+whichever representative of the point was stored -/
+theorem originTo_upper_sheet (y : Fin (n + 1) → K) : 0 ≤ (sheetSign y • y) 0 := by
+  unfold sheetSign
+  split_ifs with h
+  · simp only [Pi.smul_apply, smul_eq_mul]; linarith
+  · simp only [Pi.smul_apply, smul_eq_mul, one_mul]; exact not_lt.1 h
+
 /-- `Point.origin_to` for an interior point `x` (any representative) -/
 theorem originTo_isIso (hr : IsSqrt r) (x : Fin (n + 1) → K) (ker : List (Fin (n + 1) → K)) (hx : mink x x < 0)
-    (hker : ∀ p ∈ [normalizeVec r (minkJ n) x], ∀ k ∈ ker, mink p k = 0)
-    (hnz : ∀ u ∈ gs (minkJ n) [normalizeVec r (minkJ n) x] ++ gs (minkJ n) ker, u ≠ 0)
+    (hker : ∀ p ∈ [sheetSign (normalizeVec r (minkJ n) x) • normalizeVec r (minkJ n) x], ∀ k ∈ ker, mink p k = 0)
+    (hnz : ∀ u ∈ gs (minkJ n) [sheetSign (normalizeVec r (minkJ n) x) • normalizeVec r (minkJ n) x] ++ gs (minkJ n) ker, u ≠ 0)
     (hlen : (originTo r x ker).length = n + 1) : IsIso (rowsMatrix (originTo r x ker) hlen) :=
-  findIsometry_isIso' hr _ [] ker (normalizeVec_timelike hr x hx) hker hnz hlen
+  findIsometry_isIso' hr _ [] ker (sheet_normalizeVec_timelike hr x hx) hker hnz hlen
 
 /-- `TangentVector.origin_to` for a tangent vector `v` at an interior point `x` -/
 theorem tangentOriginTo_isIso (hr : IsSqrt r) (x v : Fin (n + 1) → K) (ker : List (Fin (n + 1) → K))
     (hx : mink x x < 0)
-    (hker : ∀ p ∈ [normalizeVec r (minkJ n) x, normalizeVec r (minkJ n) v], ∀ k ∈ ker, mink p k = 0)
-    (hnz : ∀ u ∈ gs (minkJ n) [normalizeVec r (minkJ n) x, normalizeVec r (minkJ n) v] ++ gs (minkJ n) ker, u ≠ 0)
+    (hker : ∀ p ∈ [sheetSign (normalizeVec r (minkJ n) x) • normalizeVec r (minkJ n) x,
+      sheetSign (normalizeVec r (minkJ n) x) • normalizeVec r (minkJ n) v], ∀ k ∈ ker, mink p k = 0)
+    (hnz : ∀ u ∈ gs (minkJ n) [sheetSign (normalizeVec r (minkJ n) x) • normalizeVec r (minkJ n) x,
+      sheetSign (normalizeVec r (minkJ n) x) • normalizeVec r (minkJ n) v] ++ gs (minkJ n) ker, u ≠ 0)
     (hlen : (tangentOriginTo r x v ker).length = n + 1) : IsIso (rowsMatrix (tangentOriginTo r x v ker) hlen) :=
-  findIsometry_isIso' hr _ _ ker (normalizeVec_timelike hr x hx) hker hnz hlen
+  findIsometry_isIso' hr _ _ ker (sheet_normalizeVec_timelike hr x hx) hker hnz hlen
 
 /-- (repaired) `hyperbolic.spacelike_to(v)` for spacelike `v`: the first row of the completed
 frame is timelike, so the result is an isometry -/
@@ -195,25 +205,28 @@ theorem findIsometry_isIso_svd (hr : IsSqrt r) (x : Fin (n + 1) → K) (rest : L
 
 /-- `Point.origin_to` of any interior point -/
 theorem originTo_isIso_svd (hr : IsSqrt r) (x : Fin (n + 1) → K) (hx : mink x x < 0)
-    {k : ℕ} (hk : (indefiniteOrthogonalize r (minkJ n) [normalizeVec r (minkJ n) x]).length = k)
+    {k : ℕ} (hk : (indefiniteOrthogonalize r (minkJ n)
+      [sheetSign (normalizeVec r (minkJ n) x) • normalizeVec r (minkJ n) x]).length = k)
     (tol : K) (s : List K) (U : Matrix (Fin k) (Fin k) K) (Vh : Matrix (Fin (n + 1)) (Fin (n + 1)) K)
-    (hsvd : SvdContract tol
-      (rowsMatrix (indefiniteOrthogonalize r (minkJ n) [normalizeVec r (minkJ n) x]) hk * minkJ n) s U Vh) :
+    (hsvd : SvdContract tol (rowsMatrix (indefiniteOrthogonalize r (minkJ n)
+      [sheetSign (normalizeVec r (minkJ n) x) • normalizeVec r (minkJ n) x]) hk * minkJ n) s U Vh) :
     ∃ h : (originTo r x (svdKernelRows tol k s Vh)).length = n + 1,
       IsIso (rowsMatrix (originTo r x (svdKernelRows tol k s Vh)) h) :=
-  findIsometry_isIso_of_svd hr _ [] (normalizeVec_timelike hr x hx) (originTo_partial hr x hx) hk tol s U Vh hsvd
+  findIsometry_isIso_of_svd hr _ [] (sheet_normalizeVec_timelike hr x hx) (originTo_partial hr x hx) hk tol s U Vh hsvd
 
 /-- `TangentVector.origin_to` of a non-zero tangent vector `v ⟂ x` at an interior point `x` -/
 theorem tangentOriginTo_isIso_svd (hr : IsSqrt r) (x v : Fin (n + 1) → K) (hx : mink x x < 0) (hv : v ≠ 0)
     (hxv : mink v x = 0)
     {k : ℕ} (hk : (indefiniteOrthogonalize r (minkJ n)
-      [normalizeVec r (minkJ n) x, normalizeVec r (minkJ n) v]).length = k)
+      [sheetSign (normalizeVec r (minkJ n) x) • normalizeVec r (minkJ n) x,
+       sheetSign (normalizeVec r (minkJ n) x) • normalizeVec r (minkJ n) v]).length = k)
     (tol : K) (s : List K) (U : Matrix (Fin k) (Fin k) K) (Vh : Matrix (Fin (n + 1)) (Fin (n + 1)) K)
     (hsvd : SvdContract tol (rowsMatrix (indefiniteOrthogonalize r (minkJ n)
-      [normalizeVec r (minkJ n) x, normalizeVec r (minkJ n) v]) hk * minkJ n) s U Vh) :
+      [sheetSign (normalizeVec r (minkJ n) x) • normalizeVec r (minkJ n) x,
+       sheetSign (normalizeVec r (minkJ n) x) • normalizeVec r (minkJ n) v]) hk * minkJ n) s U Vh) :
     ∃ h : (tangentOriginTo r x v (svdKernelRows tol k s Vh)).length = n + 1,
       IsIso (rowsMatrix (tangentOriginTo r x v (svdKernelRows tol k s Vh)) h) :=
-  findIsometry_isIso_of_svd hr _ _ (normalizeVec_timelike hr x hx) (tangentOriginTo_partial hr x v hx hv hxv)
+  findIsometry_isIso_of_svd hr _ _ (sheet_normalizeVec_timelike hr x hx) (tangentOriginTo_partial hr x v hx hv hxv)
     hk tol s U Vh hsvd
 
 /-- (repaired) `hyperbolic.spacelike_to` of any spacelike vector -/
